@@ -294,6 +294,23 @@ Proof.
   intros e1 e2 H. unfold full_key in H. injection H as _ Hs Hl. split; assumption.
 Qed.
 
+(* the key of the header: __gin__ feature statements first (false < true), then by module *)
+Definition bool_ltb (a b : bool) : bool := negb a && b.
+Lemma bool_ltb_strict_total : strict_total bool_ltb.
+Proof.
+  repeat split.
+  - intros []; reflexivity.
+  - intros [] [] []; cbn; congruence.
+  - intros [] []; cbn; congruence.
+Qed.
+Theorem sorted_key_ltb_strict_total : strict_total sorted_key_ltb.
+Proof.
+  apply (strict_total_ext _ (lex_ltb bool_ltb String.ltb)).
+  - intros [a1 a2] [b1 b2]. unfold lex_ltb, sorted_key_ltb, bool_ltb. cbn [fst snd].
+    destruct a1, b1; reflexivity.
+  - apply lex_strict_total; [apply bool_ltb_strict_total | apply string_ltb_strict_total].
+Qed.
+
 (* ====================================================================== *)
 (* 3. config_lines, structurally                                           *)
 (* ====================================================================== *)
@@ -1042,17 +1059,17 @@ Definition im_step (acc : list simport * list string * list string) (st : simpor
 
 Lemma import_manager_unfold : forall imports,
   import_manager imports =
-  fst (fst (fold_left im_step (sort_stable (fun x => x) import_key_ltb imports) ([], [], []))).
+  fst (fst (fold_left im_step (sort_stable (fun x => x) import_key_ltb imports) ([], [], names0 imports))).
 Proof.
   intros imports. unfold import_manager. cbv zeta.
   change (fun acc st => let '(out, mods, names) := acc in _) with im_step.
-  destruct (fold_left im_step (sort_stable (fun x => x) import_key_ltb imports) ([], [], [])) as [[o m] n].
+  destruct (fold_left im_step (sort_stable (fun x => x) import_key_ltb imports) ([], [], names0 imports)) as [[o m] n].
   reflexivity.
 Qed.
 
 Definition im_inv (acc : list simport * list string * list string) : Prop :=
   let '(out, mods, names) := acc in
-  mods = map i_module out /\ names = map bound_name out /\ NoDup mods.
+  mods = map i_module out /\ NoDup mods.
 
 Lemma NoDup_snoc : forall A (l : list A) x, NoDup l -> ~ In x l -> NoDup (l ++ [x]).
 Proof.
@@ -1063,16 +1080,15 @@ Qed.
 
 Lemma im_step_inv : forall acc st, im_inv acc -> im_inv (im_step acc st).
 Proof.
-  intros [[out mods] names] st (Hm & Hn & Hnd). unfold im_step.
-  destruct (str_in (i_module st) mods) eqn:Em; [repeat split; assumption|].
+  intros [[out mods] names] st (Hm & Hnd). unfold im_step.
+  destruct (str_in (i_module st) mods) eqn:Em; [split; assumption|].
   cbv zeta. unfold im_inv.
   set (u := uniquify_name (bound_name st) names).
   set (st' := if String.eqb u (bound_name st) then st
               else {| i_module := i_module st; i_from := i_from st; i_alias := Some u |}).
   assert (Hmod : i_module st' = i_module st) by (subst st'; destruct (String.eqb u (bound_name st)); reflexivity).
-  repeat split.
+  split.
   - rewrite map_app, Hm. cbn [map]. rewrite Hmod. reflexivity.
-  - rewrite map_app, Hn. reflexivity.
   - apply NoDup_snoc; [exact Hnd | apply str_in_not_In, Em].
 Qed.
 
@@ -1082,19 +1098,23 @@ Proof.
   apply IH, im_step_inv, Hinv.
 Qed.
 
+Lemma im_inv_init : forall n0, im_inv ([], [], n0).
+Proof. intros n0. split; constructor. Qed.
+
 Theorem import_manager_unique_modules : forall imports, NoDup (map i_module (import_manager imports)).
 Proof.
   intros imports. rewrite import_manager_unfold.
-  pose proof (fold_im_step_inv (sort_stable (fun x => x) import_key_ltb imports) ([], [], [])) as H.
-  destruct (fold_left im_step (sort_stable (fun x => x) import_key_ltb imports) ([], [], [])) as [[o m] n].
-  cbn [fst]. destruct H as (Hm & _ & Hnd); [repeat split; constructor|].
-  rewrite <- Hm. exact Hnd.
+  pose proof (fold_im_step_inv (sort_stable (fun x => x) import_key_ltb imports) _ (im_inv_init (names0 imports))) as H.
+  destruct (fold_left im_step (sort_stable (fun x => x) import_key_ltb imports) ([], [], names0 imports)) as [[o m] n].
+  cbn [fst]. destruct H as (Hm & Hnd). rewrite <- Hm. exact Hnd.
 Qed.
 
-(* unique bound names: needs freshness of uniquify_name, hence the bound on the number of imports *)
-Definition im_inv_names (B : nat) (k : nat) (acc : list simport * list string * list string) : Prop :=
+(* unique bound names, none of them a reserved one (names0): needs freshness of uniquify_name, hence
+   the bound on the number of imports *)
+Definition im_inv_names (B : nat) (k : nat) (n0 : list string)
+           (acc : list simport * list string * list string) : Prop :=
   let '(out, mods, names) := acc in
-  names = map bound_name out /\ NoDup names /\ List.length names + k + 3 <= B.
+  names = n0 ++ map bound_name out /\ NoDup names /\ List.length names + k + 2 <= B.
 
 Lemma im_step_bound_name : forall st (u : string),
   bound_name (if String.eqb u (bound_name st) then st
@@ -1103,57 +1123,144 @@ Proof.
   intros st u. destruct (String.eqb_spec u (bound_name st)) as [E|N]; [symmetry; exact E | reflexivity].
 Qed.
 
-Lemma fold_im_step_names : forall l acc,
-  im_inv_names (10 ^ 20) (List.length l) acc -> im_inv_names (10 ^ 20) 0 (fold_left im_step l acc).
+Lemma fold_im_step_names : forall n0 l acc,
+  im_inv_names (10 ^ 20) (List.length l) n0 acc -> im_inv_names (10 ^ 20) 0 n0 (fold_left im_step l acc).
 Proof.
-  set (B := 10 ^ 20).
+  set (B := 10 ^ 20). intros n0.
   induction l as [|st l IH]; intros [[out mods] names] Hinv; cbn [fold_left]; [exact Hinv|].
   apply IH. destruct Hinv as (Hn & Hnd & Hb). cbn [List.length] in Hb. unfold im_step.
   destruct (str_in (i_module st) mods); [repeat split; [assumption | assumption | lia]|].
   cbv zeta. unfold im_inv_names. rewrite im_step_bound_name. repeat split.
-  - rewrite map_app, Hn. cbn [map]. rewrite im_step_bound_name. reflexivity.
+  - rewrite map_app, Hn, <- app_assoc. cbn [map]. rewrite im_step_bound_name. reflexivity.
   - apply NoDup_snoc; [exact Hnd|]. apply uniquify_name_fresh. fold B. lia.
   - rewrite app_length. cbn [List.length]. lia.
 Qed.
 
-Theorem import_manager_unique_names : forall imports, List.length imports + 3 <= 10 ^ 20 ->
-  NoDup (map bound_name (import_manager imports)).
+Lemma names0_NoDup : forall imports, NoDup (names0 imports) /\ List.length (names0 imports) <= 1.
+Proof.
+  intros imports. unfold names0. destruct (is_dynamic imports); cbn [List.length]; split; try lia.
+  - constructor; [intros [] | constructor].
+  - constructor.
+Qed.
+
+(* the reserved names and the bound names of the output are pairwise distinct *)
+Theorem import_manager_names_inv : forall imports, List.length imports + 3 <= 10 ^ 20 ->
+  NoDup (names0 imports ++ map bound_name (import_manager imports)).
 Proof.
   intros imports Hb. rewrite import_manager_unfold.
-  pose proof (fold_im_step_names (sort_stable (fun x => x) import_key_ltb imports) ([], [], [])) as H.
-  destruct (fold_left im_step (sort_stable (fun x => x) import_key_ltb imports) ([], [], [])) as [[o m] n].
+  pose proof (fold_im_step_names (names0 imports) (sort_stable (fun x => x) import_key_ltb imports)
+                ([], [], names0 imports)) as H.
+  destruct (fold_left im_step (sort_stable (fun x => x) import_key_ltb imports) ([], [], names0 imports)) as [[o m] n].
   cbn [fst]. destruct H as (Hn & Hnd & _).
-  - repeat split; [constructor|]. cbn [List.length].
+  - destruct (names0_NoDup imports) as [Hnd0 Hlen0].
+    repeat split; [cbn [map]; rewrite app_nil_r; reflexivity | exact Hnd0 |].
     rewrite (Permutation_length (sort_stable_perm _ _ _ _ imports)).
     set (B := 10 ^ 20) in *. lia.
   - rewrite <- Hn. exact Hnd.
 Qed.
 
-(* every module of the input is imported exactly once *)
+Lemma NoDup_app_r : forall A (l1 l2 : list A), NoDup (l1 ++ l2) -> NoDup l2.
+Proof.
+  intros A l1 l2. induction l1 as [|x l1 IH]; cbn [app]; intros H; [exact H|].
+  inversion H; subst. apply IH. assumption.
+Qed.
+
+Theorem import_manager_unique_names : forall imports, List.length imports + 3 <= 10 ^ 20 ->
+  NoDup (map bound_name (import_manager imports)).
+Proof.
+  intros imports Hb. apply (NoDup_app_r _ (names0 imports)). apply import_manager_names_inv, Hb.
+Qed.
+
+(* under dynamic registration no statement binds the reserved symbol gin *)
+Theorem import_manager_gin_reserved : forall imports, List.length imports + 3 <= 10 ^ 20 ->
+  is_dynamic imports = true -> ~ In "gin" (map bound_name (import_manager imports)).
+Proof.
+  intros imports Hb Hdyn. pose proof (import_manager_names_inv imports Hb) as Hnd.
+  unfold names0 in Hnd. rewrite Hdyn in Hnd. cbn [app] in Hnd.
+  inversion Hnd as [|? ? Hnotin _]; subst. exact Hnotin.
+Qed.
+
+(* every module of the input is imported exactly once, and nothing else is *)
+Lemma fold_im_step_mods : forall (i : simport) l acc,
+  (In i l \/ In (i_module i) (snd (fst acc))) ->
+  In (i_module i) (snd (fst (fold_left im_step l acc))).
+Proof.
+  intros i. induction l as [|st l IH]; intros acc Hor; cbn [fold_left].
+  - destruct Hor as [[]|H]; exact H.
+  - apply IH.
+    destruct Hor as [[->|Hin]|Hmods]; [right | left; exact Hin | right].
+    + destruct acc as [[out mods] names]. unfold im_step. cbn [fst snd].
+      destruct (str_in (i_module i) mods) eqn:E; cbn [fst snd].
+      * apply str_in_In, E.
+      * apply in_or_app. right. left. reflexivity.
+    + destruct acc as [[out mods] names]. unfold im_step. cbn [fst snd] in *.
+      destruct (str_in (i_module st) mods); cbn [fst snd]; [exact Hmods|].
+      apply in_or_app. left. exact Hmods.
+Qed.
+
 Theorem import_manager_modules_complete : forall imports i, In i imports ->
   In (i_module i) (map i_module (import_manager imports)).
 Proof.
   intros imports i Hi. rewrite import_manager_unfold.
-  assert (Hgen : forall l acc, im_inv acc ->
-            (In i l \/ In (i_module i) (snd (fst acc))) ->
-            In (i_module i) (snd (fst (fold_left im_step l acc)))).
-  { induction l as [|st l IH]; intros acc Hinv Hor; cbn [fold_left].
-    - destruct Hor as [[]|H]; exact H.
-    - apply IH; [apply im_step_inv, Hinv|].
-      destruct Hor as [[->|Hin]|Hmods]; [right | left; exact Hin | right].
-      + destruct acc as [[out mods] names]. unfold im_step. cbn [fst snd].
-        destruct (str_in (i_module i) mods) eqn:E; cbn [fst snd].
-        * apply str_in_In, E.
-        * apply in_or_app. right. left. reflexivity.
-      + destruct acc as [[out mods] names]. unfold im_step. cbn [fst snd] in *.
-        destruct (str_in (i_module st) mods); cbn [fst snd]; [exact Hmods|].
-        apply in_or_app. left. exact Hmods. }
-  pose proof (fold_im_step_inv (sort_stable (fun x => x) import_key_ltb imports) ([], [], [])) as Hinv.
-  specialize (Hgen (sort_stable (fun x => x) import_key_ltb imports) ([], [], [])).
-  destruct (fold_left im_step (sort_stable (fun x => x) import_key_ltb imports) ([], [], [])) as [[o m] n].
-  cbn [fst snd] in *. destruct Hinv as (Hm & _ & _); [repeat split; constructor|].
-  rewrite <- Hm. apply Hgen; [repeat split; constructor|].
+  pose proof (fold_im_step_inv (sort_stable (fun x => x) import_key_ltb imports) _ (im_inv_init (names0 imports))) as Hinv.
+  pose proof (fold_im_step_mods i (sort_stable (fun x => x) import_key_ltb imports) ([], [], names0 imports)) as Hgen.
+  destruct (fold_left im_step (sort_stable (fun x => x) import_key_ltb imports) ([], [], names0 imports)) as [[o m] n].
+  cbn [fst snd] in *. destruct Hinv as (Hm & _).
+  rewrite <- Hm. apply Hgen.
   left. apply (Permutation_in _ (Permutation_sym (sort_stable_perm _ _ _ _ imports))). exact Hi.
+Qed.
+
+Lemma fold_im_step_mods_sound : forall (P : string -> Prop) l acc,
+  (forall m, In m (snd (fst acc)) -> P m) -> (forall st, In st l -> P (i_module st)) ->
+  forall m, In m (snd (fst (fold_left im_step l acc))) -> P m.
+Proof.
+  intros P. induction l as [|st l IH]; intros acc Hacc Hl; cbn [fold_left]; [exact Hacc|].
+  apply IH; [|intros st' Hst'; apply Hl; right; exact Hst'].
+  destruct acc as [[out mods] names]. unfold im_step. cbn [fst snd] in *.
+  destruct (str_in (i_module st) mods); cbn [fst snd]; [exact Hacc|].
+  intros m Hm. apply in_app_or in Hm. destruct Hm as [Hm|[<-|[]]]; [apply Hacc, Hm|].
+  apply Hl. left; reflexivity.
+Qed.
+
+Theorem import_manager_modules_sound : forall imports m,
+  In m (map i_module (import_manager imports)) -> In m (map i_module imports).
+Proof.
+  intros imports m Hin. rewrite import_manager_unfold in Hin.
+  pose proof (fold_im_step_inv (sort_stable (fun x => x) import_key_ltb imports) _ (im_inv_init (names0 imports))) as Hinv.
+  pose proof (fold_im_step_mods_sound (fun m => In m (map i_module imports))
+                (sort_stable (fun x => x) import_key_ltb imports) ([], [], names0 imports)) as Hgen.
+  destruct (fold_left im_step (sort_stable (fun x => x) import_key_ltb imports) ([], [], names0 imports)) as [[o mm] n].
+  cbn [fst snd] in *. destruct Hinv as (Hm & _). rewrite <- Hm in Hin.
+  apply Hgen; [intros ? [] | | exact Hin].
+  intros st Hst. apply in_map.
+  apply (Permutation_in _ (sort_stable_perm _ _ (fun x : simport => x) import_key_ltb imports)). exact Hst.
+Qed.
+
+(* the set of modules is preserved, hence so is "dynamic registration is on" *)
+Lemma is_dynamic_In : forall l, is_dynamic l = true <-> In "__gin__.dynamic_registration" (map i_module l).
+Proof.
+  intros l. unfold is_dynamic. rewrite existsb_exists, in_map_iff. split.
+  - intros [x [Hx He]]. apply String.eqb_eq in He. exists x. split; assumption.
+  - intros [x [He Hx]]. exists x. split; [exact Hx | apply String.eqb_eq, He].
+Qed.
+Lemma is_dynamic_ext : forall l1 l2,
+  (forall m, In m (map i_module l1) <-> In m (map i_module l2)) -> is_dynamic l1 = is_dynamic l2.
+Proof.
+  intros l1 l2 H. destruct (is_dynamic l1) eqn:E1, (is_dynamic l2) eqn:E2; try reflexivity.
+  - apply is_dynamic_In, H, is_dynamic_In in E1. congruence.
+  - apply is_dynamic_In, H, is_dynamic_In in E2. congruence.
+Qed.
+Theorem is_dynamic_import_manager : forall imports, is_dynamic (import_manager imports) = is_dynamic imports.
+Proof.
+  intros imports. apply is_dynamic_ext. intros m. split.
+  - apply import_manager_modules_sound.
+  - intros Hm. apply in_map_iff in Hm. destruct Hm as [i [<- Hi]].
+    apply import_manager_modules_complete, Hi.
+Qed.
+Theorem is_dynamic_sorted_imports : forall l, is_dynamic (sorted_imports l) = is_dynamic l.
+Proof.
+  intros l. apply is_dynamic_ext. intros m. unfold sorted_imports.
+  split; apply Permutation_in, Permutation_map; [|apply Permutation_sym]; apply sort_stable_perm.
 Qed.
 
 (* nat_str is NOT injective beyond 20 digits (the model's counter is truncated), which is why
@@ -1188,7 +1295,13 @@ Print Assumptions C06_markdown_verbatim.
 Print Assumptions config_lines_comments_gin.
 Print Assumptions keys_hash_free_of_selectors.
 Print Assumptions C06_markdown_verbatim_config.
+Print Assumptions sorted_key_ltb_strict_total.
 Print Assumptions uniquify_name_fresh.
+Print Assumptions import_manager_names_inv.
+Print Assumptions import_manager_gin_reserved.
+Print Assumptions import_manager_modules_sound.
+Print Assumptions is_dynamic_import_manager.
+Print Assumptions is_dynamic_sorted_imports.
 Print Assumptions import_manager_unique_names.
 Print Assumptions import_manager_unique_modules.
 Print Assumptions import_manager_modules_complete.
